@@ -154,6 +154,9 @@ class MemFS:
             raise FileExistsError(path)
         self.dirs.add(path)
 
+    def exists(self, path):
+        return path in self.files or path in self.dirs
+
 
 def _cells_to_bytes(cells):
     if all(isinstance(x, int) for x in cells):
@@ -243,6 +246,36 @@ class _OsShim:
 
     def mkdir(self, p):
         self._w.fs.mkdir(p)
+
+    def remove(self, p):
+        if p not in self._w.fs.files:
+            raise FileNotFoundError(p)
+        del self._w.fs.files[p]
+
+    def scandir(self, path):
+        fs = self._w.fs
+        prefix = path.rstrip('/') + '/'
+
+        class Entry:
+            def __init__(self, full):
+                self.path = full
+                self.name = full[len(prefix):]
+
+            def is_file(self):
+                return True
+
+            def stat(self):
+                class S:
+                    st_size = len(fs.files[self.path])
+                return S()
+
+        class Ctx(list):
+            def __enter__(self):
+                return iter(self)
+
+            def __exit__(self, *a):
+                return False
+        return Ctx(Entry(f) for f in sorted(fs.files) if f.startswith(prefix) and '/' not in f[len(prefix):])
 
 
 _REGISTERED = False
